@@ -240,6 +240,7 @@ def run(ck, fb, fbd):
     buffer_rule(ck, fb)
     quoted_name_rule(ck, fb)
     ascii_text_rules(ck, fb)
+    readers.string_assign_rule(ck, fb)
     write_buffer_rule(ck, fb)
     readers.ovmb_encoding_rules(ck, fb)
     bool_codec_rule(ck, fb)
